@@ -99,9 +99,13 @@ TSMsgBegin ==
 RibCallOK(o) == req.active /\ req.end = NoEnd /\ req.ops # <<>> /\ ~call.active /\ rc = "none"
                 /\ HeadOp = o /\ OpPre(HeadOp).k = "rib"
 
+\* ... and when the server's own checks demanded that the RPC end with an error instead (C09)
+RibCallFlags(o) == Flag(~RibCallOK(o), "ribCallUnexpected")
+                   \cup Flag(req.active /\ req.ops # <<>> /\ HeadOp = o /\ OpPre(HeadOp).k = "err", "ribCallInsteadOfError")
+
 TSAddBegin ==
   /\ ~dead /\ IsEvent("addbegin")
-  /\ Report(Flag(~RibCallOK(Ev.op), "ribCallUnexpected"))
+  /\ Report(RibCallFlags(Ev.op))
   /\ known' = Put(pend, Ev.op.id, Ev.op)
   /\ IF ~call.active /\ Ev.op.typ \in {"ADD", "REPLACE"} /\ ~Unroutable(Ev.op)
      THEN CallBegin(Ev.op) /\ skip' = FALSE
@@ -113,11 +117,11 @@ TSTry == TTry /\ SUnch
 TSAddEnd == TAddEnd /\ UNCHANGED <<svars, sentby, kids, lost>> /\ rc' = "done"
 TSDelete ==
   /\ ~dead /\ l <= Len(TraceLog) /\ TraceLog[l].ev = "delete"
-  /\ Report(Flag(~RibCallOK(Ev.op), "ribCallUnexpected"))
+  /\ Report(RibCallFlags(Ev.op))
   /\ TDelete /\ UNCHANGED <<svars, sentby, lost>> /\ rc' = "done" /\ kids' = {}
 TSCallErr ==
   /\ ~dead /\ l <= Len(TraceLog) /\ TraceLog[l].ev = "callerr"
-  /\ Report(Flag(~RibCallOK(Ev.op), "ribCallUnexpected"))
+  /\ Report(RibCallFlags(Ev.op))
   /\ TCallErr /\ UNCHANGED <<svars, sentby, lost>> /\ rc' = "err" /\ kids' = {}
 
 \* one ModifyResponse carrying results: the answer to the head operation
